@@ -130,6 +130,7 @@ class FnV(Val):
     fi: FuncInfo
     recv: Val | None = None
     closure: object = None
+    raw: bool = False  # do not route through the function's decorators
 
     def __hash__(self) -> int:
         return hash(self.fi.fq)
@@ -138,6 +139,14 @@ class FnV(Val):
 @dataclass(frozen=True)
 class ClsV(Val):
     fq: str
+
+
+@dataclass(frozen=True)
+class KwArgs(Val):
+    items: tuple  # ((name, Val), ...)
+
+    def __hash__(self) -> int:
+        return hash(tuple(k for k, _v in self.items))
 
 
 @dataclass(frozen=True)
@@ -689,8 +698,6 @@ class Sym:
             deps |= self.deps(val, st)
             st.path.append(t if is_and else f_not(t))
         st.path[:] = saved
-        if len(vals) >= 2 and not is_and and all(isinstance(v, (Opq, Const, Coll)) for v in vals) and isinstance(vals[-1], (Const, Coll)) and False:
-            pass
         return BoolV(f_and(fs) if is_and else f_or(fs), deps)
 
     def _e_UnaryOp(self, e, st, ctx):
@@ -999,14 +1006,24 @@ class Sym:
         args: list[Val] = []
         star = False
         for a in e.args:
+            v = self.eval(a, st, ctx)
             if isinstance(a, ast.Starred):
+                items = self.exact_items(v, st)
+                if items is not None and all(c == TRUE for _x, c in items) and not star:
+                    args += [x for x, _c in items]
+                    continue
                 star = True
-            args.append(self.eval(a, st, ctx))
+                continue
+            if not star:
+                args.append(v)
         kwargs: dict[str, Val] = {}
         for k in e.keywords:
             v = self.eval(k.value, st, ctx)
             if k.arg is None:
-                star = True
+                if isinstance(v, KwArgs):
+                    kwargs.update(dict(v.items))
+                else:
+                    star = True
             else:
                 kwargs[k.arg] = v
         alldeps = frozenset().union(*[self.deps(a, st) for a in [*args, *kwargs.values()]]) if (args or kwargs) else frozenset()
@@ -1025,6 +1042,9 @@ class Sym:
                 return r
             fval = self.get_attr(base, f.attr, st, f.value, ctx) if not isinstance(base, (Coll, Const, BoolV)) else None
         if star:
+            if isinstance(fval, FnV) and not (self.stop is not None and self.stop([fval.fi])):
+                # f(*args, **kwargs) with unknown extra arguments: the remaining parameters are unconstrained
+                return self.call_function(fval.fi, fval.recv, args, kwargs, st, e, ctx, closure=fval.closure, fill_missing=True, raw=fval.raw)
             fval = fval if isinstance(fval, (ClsV,)) else None
         # ---- dynamic dispatch on a known function value
         if isinstance(fval, Phi) and all(isinstance(a, (FnV, ClsV)) for _c, a in fval.alts):
@@ -1090,7 +1110,7 @@ class Sym:
             recv, args = args[0], args[1:]  # unbound method: Rule.should(rule)
         if fi.is_classmethod and recv is None:
             recv = ClsV(fi.cls.fq)
-        return self.call_function(fi, recv, args, kwargs, st, e, ctx, closure=fv.closure)
+        return self.call_function(fi, recv, args, kwargs, st, e, ctx, closure=fv.closure, raw=fv.raw)
 
     def construct(self, ci: ClassInfo, args, kwargs, st, ctx, e) -> Val:
         init = self.repo.lookup_method(ci, "__init__")
@@ -1122,7 +1142,34 @@ class Sym:
         self.call_function(init, ref, args, kwargs, st, e, ctx)
         return ref
 
-    def call_function(self, fi: FuncInfo, recv: Val | None, args: list[Val], kwargs: dict[str, Val], st: State, e: ast.AST | None, ctx: FuncInfo | None, closure=None) -> Val:
+    def wrapper_of(self, fi: FuncInfo) -> tuple[FuncInfo, str] | None:
+        """(wrapper function, name of the decorator's parameter) for a method decorated with a repo-defined wrapping decorator."""
+        if isinstance(fi.node, ast.Lambda):
+            return None
+        for d in getattr(fi.node, "decorator_list", []):
+            if isinstance(d, ast.Call):
+                continue
+            fq = self.repo.resolve_name(fi.module, d) if isinstance(d, (ast.Name, ast.Attribute)) else None
+            if not fq:
+                continue
+            modname, _, name = fq.rpartition(".")
+            m = self.repo.modules.get(modname)
+            dec = m.functions.get(name) if m is not None else None
+            if dec is None or len(dec.param_names) != 1:
+                continue
+            rets = [n for n in own_nodes(dec.node) if isinstance(n, ast.Return) and isinstance(n.value, ast.Name)]
+            inner = {n.name: n for n in dec.node.body if isinstance(n, (ast.FunctionDef,))}
+            if len(rets) == 1 and rets[0].value.id in inner and getattr(inner[rets[0].value.id], "_func", None) is not None:
+                return inner[rets[0].value.id]._func, dec.param_names[0]
+        return None
+
+    def call_function(self, fi: FuncInfo, recv: Val | None, args: list[Val], kwargs: dict[str, Val], st: State, e: ast.AST | None, ctx: FuncInfo | None, closure=None, fill_missing: bool = False, raw: bool = False) -> Val:
+        if not raw:
+            w = self.wrapper_of(fi)
+            if w is not None and not any(fr.fi.fq == w[0].fq for fr in self.frames):
+                wfi, pname = w
+                wargs = ([recv] if recv is not None and not isinstance(recv, ClsV) else []) + list(args)
+                return self.call_function(wfi, None, wargs, kwargs, st, e, ctx, closure=_Closure({pname: FnV(fi, None, None, True)}), fill_missing=fill_missing, raw=True)
         deps = frozenset().union(*[self.deps(a, st) for a in [*args, *kwargs.values()]]) if (args or kwargs) else frozenset()
         if recv is not None:
             deps |= self.deps(recv, st)
@@ -1133,28 +1180,47 @@ class Sym:
                 self.emit("call", fi.name, list(args), recv, st, ctx, e, ("fn", fi.fq), res)
             return res
 
-        if fi.is_abstract or is_generator(fi) or len(self.frames) >= self.max_depth or any(fr.fi.fq == fi.fq for fr in self.frames):
+        if fi.is_abstract or is_generator(fi) or len(self.frames) >= self.max_depth or any(fr.fi.fq == fi.fq for fr in self.frames) or any("register" in d or "singledispatch" in d for d in fi.decorators):
             return opaque("not interpretable")
         if self.descend is not None and ctx is not None and not self.descend(ctx, fi):
             return opaque("out of scope")
         a = fi.node.args
-        if a.vararg or a.kwarg:
-            return opaque("varargs")
         params = [p.arg for p in [*a.posonlyargs, *a.args]]
         vars_: dict[str, Val] = dict(closure.vars) if isinstance(closure, _Closure) else {}
         pos = list(params)
         if fi.cls is not None and fi.outer is None and not fi.is_staticmethod and pos and not isinstance(fi.node, ast.Lambda):
             first = pos.pop(0)
-            vars_[first] = recv if recv is not None else Opq(first, kind="param")
+            if recv is not None:
+                vars_[first] = recv
+            elif args and not fill_missing:
+                vars_[first] = args[0]
+                args = args[1:]
+            elif args:
+                vars_[first] = args[0]
+                args = args[1:]
+            else:
+                vars_[first] = Opq(first, frozenset({first}), kind="param")
         if len(args) > len(pos):
-            return opaque("too many arguments")
+            if a.vararg is None:
+                return opaque("too many arguments")
+            extra = args[len(pos):]
+            args = args[: len(pos)]
+            vars_[a.vararg.arg] = self.new_coll(st, "tuple", [(x, TRUE) for x in extra]) if not fill_missing else Opq("*" + a.vararg.arg, kind="starargs")
+        elif a.vararg is not None:
+            vars_[a.vararg.arg] = self.new_coll(st, "tuple", []) if not fill_missing else Opq("*" + a.vararg.arg, kind="starargs")
         for p, v in zip(pos, args):
             vars_[p] = v
         allp = params + [p.arg for p in a.kwonlyargs]
+        extra_kw = []
         for k, v in kwargs.items():
             if k not in allp:
-                return opaque("unknown keyword")
+                if a.kwarg is None:
+                    return opaque("unknown keyword")
+                extra_kw.append((k, v))
+                continue
             vars_[k] = v
+        if a.kwarg is not None:
+            vars_[a.kwarg.arg] = KwArgs(tuple(extra_kw)) if not fill_missing else Opq("**" + a.kwarg.arg, kind="starargs")
         pos_all = [*a.posonlyargs, *a.args]
         for p, d in zip(pos_all[len(pos_all) - len(a.defaults):], a.defaults):
             if p.arg not in vars_:
@@ -1162,8 +1228,11 @@ class Sym:
         for p, d in zip(a.kwonlyargs, a.kw_defaults):
             if d is not None and p.arg not in vars_:
                 vars_[p.arg] = self.eval_in_module(fi.module, d, st)
-        if any(p not in vars_ for p in allp):
-            return opaque("missing argument")
+        for p in allp:
+            if p not in vars_:
+                if not fill_missing:
+                    return opaque("missing argument")
+                vars_[p] = Opq(p, frozenset({p}), kind="param")
         frame = Frame(fi)
         self.frames.append(frame)
         callee_st = State(vars_, st.store, list(st.path))
@@ -1212,7 +1281,7 @@ class Sym:
             return BoolV(atom(f"{name}({key(args[0])})"), deps)
         if name in ("set", "list", "tuple", "dict", "frozenset") and not args and not kwargs:
             return self.new_coll(st, "set" if name == "frozenset" else name)
-        if name in COMPLETE_BUILTINS and len(args) == 1 and not (name == "sorted" and kwargs and False):
+        if name in COMPLETE_BUILTINS and len(args) == 1:
             kind = {"frozenset": "set", "sorted": "list", "reversed": "list"}.get(name, name)
             items = self.exact_items(args[0], st)
             if items is not None:
@@ -1263,6 +1332,11 @@ class Sym:
             return res
         if fq in ("copy.deepcopy", "copy.copy") and args:
             return args[0]
+        if fq == "collections.deque":
+            items = self.exact_items(args[0], st) if args else []
+            if items is not None:
+                return self.new_coll(st, "list", items)
+            return self.new_coll(st, "list", [], False, deps=alldeps)
         res = Opq(f"{fq}({', '.join([key(a) for a in args] + [f'{k}={key(v)}' for k, v in kwargs.items()])})", alldeps, kind="call")
         self.emit("call", fq, args, None, st, ctx, e, ("lib", fq), res)
         return res
@@ -1523,8 +1597,6 @@ class Sym:
             k = f"{key(b)}.{a.attr}"
             st.store[k] = Opq(f"{k}@L{n}", self.deps(b, st), kind="attr")
         for name in names - set(skip):
-            if name in st.vars and isinstance(st.vars[name], Coll) and name not in {dotted(m) for m in mutated} and False:
-                continue
             st.vars[name] = Opq(f"{name}@L{n}", kind="havoc")
         del self.events[saved_events:]
 
@@ -1638,8 +1710,6 @@ class Sym:
         if c == FALSE or not sat(f_and([cur.cond, c])):
             return self.block(s.orelse, cur, ctx) if s.orelse else cur
         after = self._abstract_loop(s, s.body, cur, ctx, None, None, "while", s.test)
-        if not (isinstance(s.test, ast.Constant) and s.test.value):
-            pass
         if s.orelse:
             return self.block(s.orelse, after, ctx)
         return after
@@ -1716,6 +1786,20 @@ class Sym:
         if init is not None:
             init(self, st)
         self.entry = fi
+        w = self.wrapper_of(fi)
+        if w is not None:
+            wfi, pname = w
+            vars_ = dict(vars_)
+            wa = wfi.node.args
+            wv: dict[str, Val] = {pname: FnV(fi, None, None, True)}
+            for p in [*wa.posonlyargs, *wa.args, *wa.kwonlyargs]:
+                wv[p.arg] = vars_.get(p.arg, Opq(p.arg, frozenset({p.arg}), kind="param"))
+            if wa.vararg is not None:
+                wv[wa.vararg.arg] = Opq("*" + wa.vararg.arg, kind="starargs")
+            if wa.kwarg is not None:
+                wv[wa.kwarg.arg] = Opq("**" + wa.kwarg.arg, kind="starargs")
+            st = State(wv, st.store, [])
+            fi = wfi
         self.frames.append(Frame(fi))
         try:
             end = self.block(fi.body if not isinstance(fi.node, ast.Lambda) else [ast.Return(value=fi.node.body)], st, fi)
